@@ -31,7 +31,7 @@ def universe(tier, formats=True, algorithm="SHA-256"):
                  formats=[None, "ns", "c", "bc", ""] if formats else [None], algorithm=algorithm)
     else:
         a = dict(pids=["a", "ab", "b"], contents=[b"x", b"0123456789ab"],
-                 formats=[None, "c", "bc"] if formats else [None], algorithm=algorithm)
+                 formats=[None, "ns", "c", "bc"] if formats else [None], algorithm=algorithm)
     return a
 
 
